@@ -80,7 +80,7 @@ func c05Check(s string, roots []ast.Node, clean bool) (nodes int, key, detail st
 
 func propC05(o *propOpts) *propResult {
 	res := newResult("inputs: as C04; every node of every returned tree: for error-free parses 0<=Pos<End<=len, Pos at a token start, End at a token end, children inside the parent and in non-decreasing order without overlap (CreateTable exempt); with errors the <= versions; non-trivial = error-free parse with at least 5 nodes; distinct by (entry,input)")
-	parserInputs(o, func(e *entry, s string, origin string) {
+	parserInputs(o, withPrinted(func(e *entry, s string, origin string) {
 		r := safeParse(e, s)
 		if r.hung || r.panicked != nil {
 			return
@@ -100,6 +100,6 @@ func propC05(o *propOpts) *propResult {
 			}
 			res.fail(key, s, e.name, d)
 		}
-	})
+	}))
 	return res
 }
